@@ -625,6 +625,16 @@ theorem cast_then_cut_is_cut_then_cast (segs : List Nat) (t : SegType) (R C tr t
   ⟨fun arr ov hcm => castMask_tileMask segs t R C tr tc hR hC htr htc m hnp hsz arr ov hcm,
    fun e hcm => castMask_tileMask_error segs t R C tr tc hR hC htr htc m hnp hsz e hcm⟩
 
+/-- (10g) **`buildTiled` is the constructor in the source's order.**  `buildTiledSrc` follows `Segmentation.__init__` with
+`tile_pixel_array=True` statement by statement: argument checks, `_check_and_cast_pixel_array` on the WHOLE matrix, then the
+frame loop over `get_tile_array` tiles of the *cast* array.  It returns the same object, or the same refusal, as `buildTiled`
+(which cuts first so that everything proved about `build` applies) -- for every matrix, tile size, type and option.  Hence
+(10d) holds for `buildTiledSrc`. -/
+theorem buildTiled_is_source_order (codec : Option Codec) (R C tr tc : Nat) (hR : 1 ≤ R) (hC : 1 ≤ C) (htr : 1 ≤ tr)
+    (htc : 1 ≤ tc) (t : SegType) (segs : List Nat) (mfv : Nat) (omt : Bool) (m : Mask) :
+    buildTiled codec R C tr tc t segs mfv omt m = buildTiledSrc codec R C tr tc t segs mfv omt m :=
+  buildTiled_eq_src codec R C tr tc hR hC htr htc t segs mfv omt m
+
 /-- non-vacuity of (10f): a stacked float matrix for a LABELMAP (cast to integers, combined to the described numbers) -/
 example : castMask [3, 7] .labelmap (.fltStack [[[1,0],[0,1],[0,0]]]) = .ok (.intLabel [[3,7,0]], .no) ∧
     castMask [3, 7] .labelmap (tileMask 1 3 1 2 (.fltStack [[[1,0],[0,1],[0,0]]])) =
